@@ -664,7 +664,12 @@ impl Prioritize {
         }
     }
 
-    pub fn clear_queue<B>(&mut self, buffer: &mut Buffer<Frame<B>>, stream: &mut store::Ptr) {
+    pub fn clear_queue<B>(
+        &mut self,
+        buffer: &mut Buffer<Frame<B>>,
+        stream: &mut store::Ptr,
+        counts: &mut Counts,
+    ) {
         let span = tracing::trace_span!("clear_queue", ?stream.id);
         let _e = span.enter();
 
@@ -682,7 +687,8 @@ impl Prioritize {
                     pushed
                         .state
                         .set_reset(id, Reason::CANCEL, Initiator::Library);
-                    self.clear_queue(buffer, &mut pushed);
+                    self.clear_queue(buffer, &mut pushed, counts);
+                    self.reclaim_all_capacity(&mut pushed, counts);
                     pushed.notify_send();
                 }
             }
@@ -755,7 +761,7 @@ impl Prioritize {
                                 // response, which requires sending all queued DATA.
                                 if reason != Reason::NO_ERROR {
                                     stream.pending_send.push_front(buffer, frame.into());
-                                    self.clear_queue(buffer, &mut stream);
+                                    self.clear_queue(buffer, &mut stream, counts);
                                     self.reclaim_all_capacity(&mut stream, counts);
                                     self.pending_send.push(&mut stream);
                                     continue;
